@@ -66,6 +66,11 @@ META = {
         note="Trusted: Lean kernel; proxy model tied by correspondence and regenerated facts; Go regexp/net/http. One genuine defect (reads with a cookie were forwarded at once when the database did not exist locally yet) found and repaired in /repo.",
         technique="Lean 4 theorems over a decision-logic model (all requests, all position timelines) + regenerated branch facts + differential suite on the real ProxyServer",
     ),
+    "C20": dict(
+        text="Lean 4 proofs over a model of the API's routing and per-handler validation order (regenerated from http/server.go on every run and compared by fact theorems): routing is total, refusals are error statuses, role gates (import / halt grant / stream only on the primary), a forwarded transaction proceeds only for the halt-lock holder, invalid database names never reach the store. The model, in front of engine-model databases, is compared with the real server on generated requests over all endpoints, methods, parameter and node-id shapes, both protocols and body classes in three roles; Lean spec predicates check that every request is answered and that every answered error left databases, log, locks and database set unchanged.",
+        note="Trusted: Lean kernel; fact extractor; API model tied by correspondence. Five genuine defects found by this suite were repaired in /repo; one is recorded as an open known finding (POST /import of an unreadable image leaves a new empty database entry).",
+        technique="Lean 4 theorems over a routing/validation model with regenerated tables + differential and before/after-state check of the real HTTP server",
+    ),
     "C10": dict(
         text="Lean 4 proofs that (a) the small-step model of Export / WriteSnapshotTo performs exactly the guard calls and state captures of db.go in source order (fact regenerated from the source on every run), with the capture strictly inside the exclusive WAL-write-lock bracket and, for Export, no gap between that bracket and the read locks, (b) over the generated RWMutex code, for any lock table and any number of owners, a lock held shared by the snapshot cannot be taken exclusively by anyone else and the exclusively held write lock excludes every other owner, (c) a snapshot passing its checksum self-check is the image of its reported position under an explicit collision-freedom hypothesis; plus a schedule-exploring differential suite that suspends the real functions at every lock call and runs commits, checkpoints, WAL restarts, truncations and drops in the window, judged by the Lean spec (bytes = image of the reported position).",
         note="Trusted: Lean kernel; fact extractor; small-step model tied by the snapsched suite; suspension at lock-call granularity. One genuine defect (Export's lock window) was found by this suite and repaired in /repo (068dfa9).",
